@@ -94,6 +94,55 @@ for _origin in ("root", "partial", "block", "partial-in-block"):
     contract(CTX + ".copy", prop="C15", name=f"copy[isolated: block_scope=False, caller={_origin}]")(lambda c, o=_origin: _copy_isolated(c, o))
 
 
+@contract(CTX + ".copy", prop="C15", name="copy[block scope keeps the disabled tags]")
+def copy_block_keeps_disabled(c):
+    """Statement: a rendered template cannot use the include tag -- also not from inside a
+    {% block %} of a rendered template that uses extends.  A block body is rendered in
+    copy(block_scope=True): the copy must keep every tag that is disabled in its parent."""
+    env = mk_env(c)
+    d0 = c.str("disabled0")
+    ctx = mk_ctx(c, env, disabled_tags=c.st.alloc(HList(items=[d0])))
+    extra = c.bool("caller_passes_more")
+    more = c.st.alloc(HList(items=[c.str("disabled1")]))
+    namespace = c.dict("block_namespace")
+
+    def entry(eng, cc, func):
+        outs = []
+        for dt in (NONE, more):
+            outs += eng.run(func, cc.st.fork(), [namespace], dict(disabled_tags=dt, carry_loop_iterations=const(True), block_scope=const(True)), self_val=ctx)
+        return outs
+    c.entry = entry
+
+    def post(r):
+        dl = r.st.deref(r.st.deref(r.value).fields["disabled_tags"])
+        if not isinstance(dl, HList) or dl.items is None:
+            return z3.BoolVal(False)
+        return z3.Or(*[box(x) == U.str(d0.t) for x in dl.items]) if dl.items else z3.BoolVal(False)
+    c.ensures("tags-disabled-for-the-template-stay-disabled-inside-its-blocks", post)
+    c.raises("ContextDepthError")
+    c.replay("code", code=REPLAY_BLOCK_INCLUDE)
+
+
+REPLAY_BLOCK_INCLUDE = r'''
+def run(m):
+    import asyncio
+    from liquid import Environment, DictLoader
+    from liquid.exceptions import DisabledTagError
+    env = Environment(extra=True, loader=DictLoader({
+        "base": "BASE[{% block content %}default{% endblock %}]",
+        "p": "{% extends 'base' %}{% block content %}{% include 'inc' %}{% endblock %}",
+        "inc": "INC"}))
+    got = []
+    for a in (False, True):
+        t = env.from_string("{% render 'p' %}")
+        try:
+            got.append(asyncio.run(t.render_async()) if a else t.render())
+        except DisabledTagError:
+            got.append("DisabledTagError")
+    return {"violated": got != ["DisabledTagError"] * 2, "observed": got, "witness": "include-inside-block-of-rendered-partial"}
+'''
+
+
 def _node_render_disabled(c, sfx):
     env = mk_env(c)
     kind, value = c.str("token_kind"), c.str("token_value")
